@@ -12,10 +12,15 @@
    the Go constructors can build, resolving the expression that T prints (its name and, parameter by parameter,
    what Parameters() writes, nested types recursively) through the positional creators yields T again, and that
    result prints the same text. The layer between (tokens <-> expressions, the parser proper) has no theorem
-   yet: the direct check and the correspondence run cover it (partial). *)
+   yet: the direct check and the correspondence run cover it (partial).
+
+   Container values (model: Model/ValuePrint.v): a value is a graph of Array / Hash instances in which one
+   instance may sit at several positions (aliasing, e.g. the library's shared px.EmptyArray); the printer walks
+   it with one recursion detector shared by all nested calls. On EVERY graph without cycles it writes exactly the
+   tokens of the tree the graph stands for and never the `<recursive reference>` marker. *)
 From Coq Require Import ZArith NArith Bool List.
-From PcoreV Require Import Model.Base Model.Ty Model.QuoteLex Model.TypePrint
-  Proofs.QuoteLexUtf8 Proofs.QuoteLexProofs Proofs.TypePrintProofs.
+From PcoreV Require Import Model.Base Model.Ty Model.QuoteLex Model.TypePrint Model.TokenParse Model.ValuePrint
+  Proofs.QuoteLexUtf8 Proofs.QuoteLexProofs Proofs.TypePrintProofs Proofs.ValuePrintProofs.
 Import ListNotations.
 Open Scope N_scope.
 
@@ -198,3 +203,45 @@ Example C05_types_nonvacuous :
      32;72;97;115;104;91;83;116;114;105;110;103;44;32;69;110;117;109;91;39;120;39;44;32;116;114;117;101;93;44;32;50;
      44;32;51;93;125;93]%N.
 Proof. repeat split; vm_compute; reflexivity. Qed.
+
+(* ------------------------------------------------------------------------------------------ *)
+(* ---- container values: the printer on an object graph with aliasing ---- *)
+Open Scope nat_scope.
+
+(* For every heap of Array / Hash instances without cycles (instances numbered children before parents; any
+   amount of sharing, any depth) and every reference into it: Array.ToString2 / Hash.ToString2 with the shared
+   recursion detector write the tokens of the unfolded tree, nothing else, and the detector is empty again. *)
+Theorem C05_print_shared_value :
+  forall (h : heap) (r : ref), acyclic h = true -> ref_below (length h) r = true ->
+    exists t, value_of h r = Some t /\ print_value h r = VOk (map PT (tokens_tree t), []).
+Proof. exact print_value_shared. Qed.
+Print Assumptions C05_print_shared_value.
+
+(* In particular the text has no `<recursive reference>` marker (which the lexer rejects). *)
+Theorem C05_print_no_recursive_marker :
+  forall (h : heap) (r : ref), acyclic h = true -> ref_below (length h) r = true ->
+    exists out, print_value h r = VOk (out, []) /\ existsb is_rec out = false /\
+                exists t, value_of h r = Some t /\ strip out = tokens_tree t.
+Proof. exact print_value_no_marker. Qed.
+Print Assumptions C05_print_no_recursive_marker.
+
+(* The tree of a literal value of layer L2 has the tokens that layer gives the literal (Model/TokenParse.v). *)
+Theorem C05_tree_tokens_are_literal_tokens : forall v : pval, tokens_tree (tree_of v) = tokens_of v.
+Proof. exact tokens_tree_of. Qed.
+Print Assumptions C05_tree_tokens_are_literal_tokens.
+
+(* Non-vacuity: one empty array instance at three positions and two depths, [e, [e], {'k' => e}], prints as
+   [[], [[]], {'k' => []}]; the detector does its work on a graph WITH a cycle (an array that holds itself). *)
+Example C05_shared_empty_array :
+  let k := KString [107]%N in
+  let h := [NArr []; NArr [RNode 0]; NHash [(RLeaf [k], RNode 0)]; NArr [RNode 0; RNode 1; RNode 2]] in
+  acyclic h = true /\
+  print_value h (RNode 3) =
+    VOk (map PT [KLBracket; KLBracket; KRBracket; KComma; KLBracket; KLBracket; KRBracket; KRBracket; KComma;
+                 KLBrace; k; KRocket; KLBracket; KRBracket; KRBrace; KRBracket], []).
+Proof. split; vm_compute; reflexivity. Qed.
+
+Example C05_cycle_prints_marker :
+  acyclic [NArr [RNode 0]] = false /\
+  print_value [NArr [RNode 0]] (RNode 0) = VOk ([PT KLBracket; PRec; PT KRBracket], []).
+Proof. split; vm_compute; reflexivity. Qed.
